@@ -163,12 +163,16 @@ type Run struct {
 	rcalls    [2]int // Recv calls started
 	rrets     [2]int // Recv calls returned
 	conns     map[string]*gbn.GoBackNConn
+	extraSink gbn.VerifSinkFunc
 	HsErr     [2]string
 }
 
 var epIdx = map[string]int{"c": 0, "s": 1}
 
 func (r *Run) sink(src any, ev string, kv ...int) {
+	if r.extraSink != nil {
+		r.extraSink(src, ev, kv...)
+	}
 	if strings.HasPrefix(ev, "new:") {
 		ep := "c"
 		if ev == "new:server" {
@@ -344,6 +348,14 @@ func (r *Run) PostCalls(ep string) {
 	_, err = r.conns[ep].Recv()
 	r.Rec.Emit("postRecv", "ep", ep, "err", errStr(err),
 		"w", int(time.Since(t0)/time.Millisecond))
+}
+
+// ExecuteWithSink is Execute with an additional sink that sees every hook
+// event first (e.g. the ticker hooks, which belong to no connection).
+func ExecuteWithSink(cfg Config, extra gbn.VerifSinkFunc) *Run {
+	r := &Run{Cfg: cfg, Rec: trace.New(), ids: map[any]string{},
+		startCh: make(chan struct{}), extraSink: extra}
+	return r.execute()
 }
 
 // Execute runs the configured scenario.  It must be called from inside a
